@@ -36,3 +36,23 @@ PROPS = {
         "assumptions": COMMON_ASSUMPTIONS + ["clause (d) is asserted only when the measured lock hold time and IdP latency stay below the 2 s lock duration"],
     },
 }
+
+PROPS["C13"] = {
+    "level": "fault_enumeration",
+    "quick_runs": 64, "quick_budget_s": 150, "thorough_budget_s": 600,
+    "rule": "one run = one sampled world (cookie name, secret size, refresh-token rotation, provider button) + one scenario "
+            "{login callback, authenticated request, stale-session refresh, sign-out, auth endpoint, userinfo, readiness, htpasswd form login}; "
+            "the scenario's store-command sequence is recorded fault-free, then re-executed once for EVERY position x EVERY fault kind "
+            "(error before/after effect, timeout before/after effect, slow, key missing, evicted, value of another session, truncation to 8 length "
+            "classes, bit flip at 8 positions, garbage of 4 lengths) and for pairs of positions (all pairs in thorough, 12 sampled in quick), each "
+            "iteration with a fresh browser and login; non-trivial = at least one fault fired inside the flow; distinct = distinct event-log hash",
+    "assumptions": COMMON_ASSUMPTIONS + ["faults are injected at the go-redis ProcessHook, i.e. below the repository's redis client wrapper, store, ticket and lock code"],
+}
+
+NOT_CLAIMED = {}
+PROPS["C12"]["level_text"] = ("seeded search over interleavings of 1-3 concurrent requests at every Redis command, lock script and IdP call, IdP latencies and "
+    "behaviours, store faults, client aborts and replica crashes; invariants during the run and register-linearizability (porcupine) over the recorded history")
+PROPS["C13"]["level_text"] = ("complete position x fault-kind sweep (and pairs) over the store-command sequence of each sampled scenario; "
+    "seeded choice of scenario and world")
+PROPS["C12"]["quick_runs"] = 4800
+PROPS["C13"]["quick_runs"] = 320
